@@ -59,6 +59,10 @@ def gen_response_spec(r: random.Random, proto: str = "h1", small: bool = True) -
         "data_chunk": r.choice([None, 1, 7, 100, 16384]) if proto == "h2" else None,
         "pad": r.choice([None, None, 0, 5]) if proto == "h2" else None,
     }
+    # position on the connection: first response, or after 1-2 kept-alive exchanges
+    spec["warm"] = r.choice([0, 0, 1, 2])
+    # large header blocks (HTTP/1.1, below httpcore's documented 100 KiB limit for one incomplete event)
+    spec["big_headers"] = r.choice([0, 0, 0, 20, 60, 90]) if (proto == "h1" and not small) else 0
     if proto == "h2" and spec["data_chunk"] in (1, 7) and size > 3000:
         spec["data_chunk"] = 100  # keep the number of frames (and loop iterations at one virtual instant) bounded
     return spec
@@ -69,6 +73,8 @@ def build_resp(spec: dict) -> Resp:
     lower = spec["proto"] == "h2"
     headers = gen_headers(r, lower)
     body = rand_body(r, spec["size"])
+    for j in range(spec.get("big_headers", 0)):
+        headers.append((b"Set-Cookie", b"c%d=" % j + bytes(r.choice(VALUE_CHARS.replace(b" ", b"a")) for _ in range(1000))))
     interim = []
     for st in spec["interim"]:
         hs = gen_headers(r, lower, 2)
